@@ -417,3 +417,150 @@ Section ChainTotal.
     verdict_of (lookup sub hasm chk sub_fresh ms k) = Some (spec_outcome sub ms k).
   Proof. intros Hf Hnd Hst Hk Ht. apply chain_exact_unconditional; auto. now apply forest_chain. Qed.
 End ChainTotal.
+
+(* ---- C06 on chain-applicable calls: the verdict does not depend on the order of the method list ---- *)
+Section PermFree.
+  Variable sub : nat -> nat -> bool.
+
+  Lemma filter_perm {X} (p : X -> bool) l l' : Permutation l l' -> Permutation (filter p l) (filter p l').
+  Proof.
+    induction 1 as [|x l l' _ IH|x y l|l l' l'' _ IH1 _ IH2]; simpl.
+    - constructor.
+    - destruct (p x); [now constructor|exact IH].
+    - destruct (p x), (p y); try reflexivity. apply perm_swap.
+    - etransitivity; eauto.
+  Qed.
+
+  Lemma forallb_perm {X} (p : X -> bool) l l' : Permutation l l' -> forallb p l = forallb p l'.
+  Proof.
+    intros Hp. destruct (forallb p l) eqn:E; symmetry.
+    - rewrite forallb_forall in *. intros x Hx. apply E. eapply Permutation_in; [symmetry; exact Hp|exact Hx].
+    - apply not_true_iff_false. intros E'. rewrite forallb_forall in E'.
+      assert (forallb p l = true); [|congruence]. apply forallb_forall. intros x Hx. apply E'. eapply Permutation_in; eauto.
+  Qed.
+
+  Theorem spec_outcome_perm ms ms' k : Permutation ms ms' -> spec_outcome sub ms k = spec_outcome sub ms' k.
+  Proof.
+    intros Hp. unfold spec_outcome.
+    set (app := filter (fun m => applicable sub m k) ms). set (app' := filter (fun m => applicable sub m k) ms').
+    assert (Hpa : Permutation app app') by (apply filter_perm; exact Hp).
+    set (w := fun (ap : list meth) (m : meth) => forallb (fun m' => Nat.eqb (m_id m') (m_id m) || beats sub m m' k) ap).
+    assert (Hw : forall m, w app m = w app' m) by (intros m; apply forallb_perm; exact Hpa).
+    assert (Hpw : Permutation (filter (w app) app) (filter (w app') app')).
+    { etransitivity; [apply filter_perm; exact Hpa|]. erewrite filter_ext; [reflexivity|exact Hw]. }
+    fold (w app) (w app').
+    destruct app as [|a r] eqn:Ea.
+    { apply Permutation_nil in Hpa. now rewrite Hpa. }
+    destruct app' as [|a' r'] eqn:Ea'.
+    { apply Permutation_sym, Permutation_nil in Hpa. discriminate. }
+    destruct (filter (w (a :: r)) (a :: r)) as [|m [|m2 t]] eqn:Ef.
+    - apply Permutation_nil in Hpw. now rewrite Hpw.
+    - apply Permutation_length_1_inv in Hpw. now rewrite Hpw.
+    - destruct (filter (w (a' :: r')) (a' :: r')) as [|m' [|m2' t']] eqn:Ef'; try reflexivity.
+      apply Permutation_sym, Permutation_length_1_inv in Hpw. discriminate.
+  Qed.
+
+  Lemma slot_types_perm_In ms ms' s t : Permutation ms ms' -> In t (slot_types ms s) -> In t (slot_types ms' s).
+  Proof.
+    intros Hp. rewrite !slot_types_In. intros (m & Hm & Hs). exists m. split; [eapply Permutation_in; eauto|exact Hs].
+  Qed.
+
+  Lemma chain_applicable_perm ms ms' k : Permutation ms ms' ->
+    chain_applicable sub ms k = true -> chain_applicable sub ms' k = true.
+  Proof.
+    intros Hp. unfold chain_applicable. rewrite !forallb_forall. intros H st Hst. specialize (H st Hst).
+    destruct (snd st); try discriminate. unfold chain_at in *. rewrite forallb_forall in *.
+    intros t1 H1. apply forallb_forall. intros t2 H2. apply filter_In in H1, H2.
+    destruct H1 as [H1 H1'], H2 as [H2 H2'].
+    assert (G1 : In t1 (filter (fun t => match t with Cls d => sub c d | _ => false end) (slot_types ms (fst st))))
+      by (apply filter_In; split; [eapply slot_types_perm_In; [symmetry; exact Hp|exact H1]|exact H1']).
+    assert (G2 : In t2 (filter (fun t => match t with Cls d => sub c d | _ => false end) (slot_types ms (fst st))))
+      by (apply filter_In; split; [eapply slot_types_perm_In; [symmetry; exact Hp|exact H2]|exact H2']).
+    specialize (H _ G1). rewrite forallb_forall in H. exact (H _ G2).
+  Qed.
+
+  Lemma ties_wf_perm ms ms' : Permutation ms ms' -> ties_wf ms = true -> ties_wf ms' = true.
+  Proof.
+    intros Hp. rewrite !ties_wf_iff. intros H a Ha.
+    destruct (H a (Permutation_in _ (Permutation_sym Hp) Ha)) as [H1 H2]. split; [exact H1|].
+    destruct H2 as [H2|(b & Hb & Hs)]; [now left|right]. exists b. split; [eapply Permutation_in; eauto|exact Hs].
+  Qed.
+End PermFree.
+
+Section PermFreeMain.
+  Variable sub : nat -> nat -> bool.
+  Variable hasm : nat -> nat -> bool.
+  Variable chk : nat -> nat -> bool.
+  Variable sub_fresh : nat -> bool.
+  Hypothesis sub_refl : forall c, sub c c = true.
+  Hypothesis sub_antisym : forall c d, sub c d = true -> sub d c = true -> c = d.
+  Hypothesis sub_trans : forall a b c, sub a b = true -> sub b c = true -> sub a c = true.
+
+  Theorem chain_order_free ms ms' k :
+    NoDup (map m_id ms) -> static_ms ms = true -> static_key k = true ->
+    chain_applicable sub ms k = true -> ties_wf ms = true -> Permutation ms ms' ->
+    verdict_of (lookup sub hasm chk sub_fresh ms' k) = verdict_of (lookup sub hasm chk sub_fresh ms k).
+  Proof.
+    intros Hnd Hst Hk Hch Ht Hp.
+    rewrite (chain_exact_unconditional sub hasm chk sub_fresh sub_refl sub_antisym sub_trans ms k Hnd Hst Hk Hch Ht).
+    rewrite (chain_exact_unconditional sub hasm chk sub_fresh sub_refl sub_antisym sub_trans ms' k).
+    - now rewrite (spec_outcome_perm sub ms ms' k Hp).
+    - eapply Permutation_NoDup; [apply Permutation_map; exact Hp|exact Hnd].
+    - eapply static_ms_perm; eauto.
+    - exact Hk.
+    - eapply chain_applicable_perm; eauto.
+    - eapply ties_wf_perm; eauto.
+  Qed.
+End PermFreeMain.
+
+Section Irrelevant.
+  Variable sub : nat -> nat -> bool.
+  Variable hasm : nat -> nat -> bool.
+  Variable chk : nat -> nat -> bool.
+  Variable sub_fresh : nat -> bool.
+  Hypothesis sub_refl : forall c, sub c c = true.
+  Hypothesis sub_antisym : forall c d, sub c d = true -> sub d c = true -> c = d.
+  Hypothesis sub_trans : forall a b c, sub a b = true -> sub b c = true -> sub a c = true.
+
+  Lemma spec_outcome_irrelevant ms extra k :
+    (forall m, In m extra -> applicable sub m k = false) -> spec_outcome sub (ms ++ extra) k = spec_outcome sub ms k.
+  Proof.
+    intros H. unfold spec_outcome. rewrite filter_app.
+    rewrite (filter_all_false (fun m => applicable sub m k) extra H), app_nil_r. reflexivity.
+  Qed.
+
+  Lemma chain_applicable_sub ms extra k :
+    chain_applicable sub (ms ++ extra) k = true -> chain_applicable sub ms k = true.
+  Proof.
+    unfold chain_applicable. rewrite !forallb_forall. intros H st Hst. specialize (H st Hst).
+    destruct (snd st); try discriminate. unfold chain_at in *. rewrite forallb_forall in *.
+    assert (Hin : forall t, In t (slot_types ms (fst st)) -> In t (slot_types (ms ++ extra) (fst st))).
+    { intros t. rewrite !slot_types_In. intros (m & Hm & Hs). exists m. split; [apply in_app_iff; now left|exact Hs]. }
+    intros t1 H1. apply forallb_forall. intros t2 H2. apply filter_In in H1, H2.
+    destruct H1 as [H1 H1'], H2 as [H2 H2'].
+    assert (G1 : In t1 (filter (fun t => match t with Cls d => sub c d | _ => false end) (slot_types (ms ++ extra) (fst st))))
+      by (apply filter_In; auto).
+    assert (G2 : In t2 (filter (fun t => match t with Cls d => sub c d | _ => false end) (slot_types (ms ++ extra) (fst st))))
+      by (apply filter_In; auto).
+    specialize (H _ G1). rewrite forallb_forall in H. exact (H _ G2).
+  Qed.
+
+  (* methods that are not applicable to a chain-applicable call do not change its verdict *)
+  Theorem chain_irrelevant ms extra k :
+    NoDup (map m_id (ms ++ extra)) -> static_ms (ms ++ extra) = true -> static_key k = true ->
+    chain_applicable sub (ms ++ extra) k = true -> ties_wf ms = true -> ties_wf (ms ++ extra) = true ->
+    (forall m, In m extra -> applicable sub m k = false) ->
+    verdict_of (lookup sub hasm chk sub_fresh (ms ++ extra) k) = verdict_of (lookup sub hasm chk sub_fresh ms k).
+  Proof.
+    intros Hnd Hst Hk Hch Ht Ht' Hex.
+    rewrite (chain_exact_unconditional sub hasm chk sub_fresh sub_refl sub_antisym sub_trans (ms ++ extra) k Hnd Hst Hk Hch Ht').
+    rewrite (chain_exact_unconditional sub hasm chk sub_fresh sub_refl sub_antisym sub_trans ms k).
+    - now rewrite spec_outcome_irrelevant.
+    - rewrite map_app in Hnd. clear -Hnd. induction (map m_id ms) as [|x a IH]; simpl in *; [constructor|].
+      inversion Hnd; subst. constructor; [|auto]. intros Hin. apply H1. apply in_app_iff. now left.
+    - unfold static_ms in *. rewrite forallb_app in Hst. now apply andb_true_iff in Hst.
+    - exact Hk.
+    - eapply chain_applicable_sub; eauto.
+    - exact Ht.
+  Qed.
+End Irrelevant.
